@@ -273,6 +273,9 @@ class Path:
             eng.stats["queries"] += 1
             eng.stats["solver_s"] += time.time() - t0
             eng.stats[r] = eng.stats.get(r, 0) + 1
+            from . import xsolver
+
+            xsolver.cross_check(eng.solver, r)
             if r == "sat":
                 return r, eng.solver.model()
             return r, None
